@@ -36,11 +36,13 @@ mod rxpn;
 mod inject;
 mod txlog;
 mod multi;
+mod oblig;
 
 pub use snapshot::{PathSnap, Snapshot, SpaceSnap, StreamsSnap};
 pub use inject::{FrameProbe, Inject, StreamProbe};
 pub use txlog::{TxLog, TxPkt};
 pub use multi::{ConnCidView, EndpointView, MetaView};
+pub use oblig::{Oblig, SendOb, StreamsOb};
 
 pub(crate) fn hex(b: &[u8]) -> String {
     if b.is_empty() {
